@@ -43,6 +43,29 @@ struct Note {
     count: i64,
 }
 
+// types deriving DbElement (DbType + the pair ("db_element_id", "<TypeName>") appended after the fields): one with a
+// mix of required and optional fields, one with optional fields only, one without options
+#[derive(DbElement, Clone, Debug, PartialEq)]
+struct Device {
+    db_id: Option<DbId>,
+    name: String,
+    port: Option<u64>,
+}
+
+#[derive(DbElement, Clone, Debug, PartialEq)]
+struct Prefs {
+    db_id: Option<DbId>,
+    theme: Option<String>,
+    size: Option<u64>,
+}
+
+#[derive(DbElement, Clone, Debug, PartialEq)]
+struct Plain {
+    db_id: Option<DbId>,
+    label: String,
+    n: i64,
+}
+
 fn kv<K: Into<DbValue>, V: Into<DbValue>>(k: K, v: V) -> DbKeyValue {
     DbKeyValue { key: k.into(), value: v.into() }
 }
@@ -59,6 +82,23 @@ fn expected_profile(v: &Profile) -> Vec<DbKeyValue> {
 }
 fn expected_note(v: &Note) -> Vec<DbKeyValue> {
     vec![kv("title", v.title.clone()), kv("count", v.count)]
+}
+
+fn expected_device(v: &Device) -> Vec<DbKeyValue> {
+    let mut out = vec![kv("name", v.name.clone())];
+    if let Some(p) = &v.port { out.push(kv("port", *p)); }
+    out.push(kv("db_element_id", "Device"));
+    out
+}
+fn expected_prefs(v: &Prefs) -> Vec<DbKeyValue> {
+    let mut out = vec![];
+    if let Some(t) = &v.theme { out.push(kv("theme", t.clone())); }
+    if let Some(z) = &v.size { out.push(kv("size", *z)); }
+    out.push(kv("db_element_id", "Prefs"));
+    out
+}
+fn expected_plain(v: &Plain) -> Vec<DbKeyValue> {
+    vec![kv("label", v.label.clone()), kv("n", v.n), kv("db_element_id", "Plain")]
 }
 
 fn word(rng: &mut Rng) -> String {
@@ -81,7 +121,19 @@ fn insert_event(ids: &[QueryId], values: &[Vec<DbKeyValue>], r: &Result<QueryRes
 }
 
 #[derive(Clone)]
-enum Stored { A(Account), P(Profile), N(Note) }
+enum Stored { A(Account), P(Profile), N(Note), D(Device), F(Prefs), L(Plain) }
+
+/// typed read-back through both typed selects: `elements::<T>()` (Vec<T>) and `element::<T>()` (T)
+macro_rules! typed_read {
+    ($T:ty, $db:expr, $id:expr, $want:expr) => {{
+        let many = guarded(|| with_db_ref($db, |d| d.exec(QueryBuilder::select().elements::<$T>().ids($id).query())).and_then(|r| TryInto::<Vec<$T>>::try_into(r)));
+        let one = guarded(|| with_db_ref($db, |d| d.exec(QueryBuilder::select().element::<$T>().ids($id).query())).and_then(|r| TryInto::<$T>::try_into(r)));
+        match (many, one) {
+            (Ok(Ok(vs)), Ok(Ok(v))) => (true, vs.len() == 1 && &vs[0] == $want && &v == $want),
+            _ => (false, false),
+        }
+    }};
+}
 
 pub fn run(args: &Args) {
     let seed = args.num("seed", 1);
@@ -107,7 +159,25 @@ pub fn run(args: &Args) {
             let x = rng.below(10);
             if x < 5 || stored.is_empty() {
                 // insert a new element (one, or two at once through elements())
-                match rng.below(4) {
+                match rng.below(7) {
+                    4 => {
+                        let v = Device { db_id: None, name: word(&mut rng), port: if rng.chance(1, 2) { Some(rng.below(9000)) } else { None } };
+                        let r = with_db_mut(&mut db, |d| d.exec_mut(QueryBuilder::insert().element(&v).query()));
+                        trace.emit(insert_event(&[QueryId::Id(DbId(0))], &[expected_device(&v)], &r));
+                        if let Ok(r) = &r { let id = r.elements[0].id.0; stored.push((id, Stored::D(Device { db_id: Some(DbId(id)), ..v }))); }
+                    }
+                    5 => {
+                        let v = Prefs { db_id: None, theme: if rng.chance(2, 3) { Some(word(&mut rng)) } else { None }, size: if rng.chance(2, 3) { Some(rng.below(40)) } else { None } };
+                        let r = with_db_mut(&mut db, |d| d.exec_mut(QueryBuilder::insert().element(&v).query()));
+                        trace.emit(insert_event(&[QueryId::Id(DbId(0))], &[expected_prefs(&v)], &r));
+                        if let Ok(r) = &r { let id = r.elements[0].id.0; stored.push((id, Stored::F(Prefs { db_id: Some(DbId(id)), ..v }))); }
+                    }
+                    6 => {
+                        let v = Plain { db_id: None, label: word(&mut rng), n: rng.below(9) as i64 - 4 };
+                        let r = with_db_mut(&mut db, |d| d.exec_mut(QueryBuilder::insert().element(&v).query()));
+                        trace.emit(insert_event(&[QueryId::Id(DbId(0))], &[expected_plain(&v)], &r));
+                        if let Ok(r) = &r { let id = r.elements[0].id.0; stored.push((id, Stored::L(Plain { db_id: Some(DbId(id)), ..v }))); }
+                    }
                     0 => {
                         let v = gen_account(&mut rng);
                         let r = with_db_mut(&mut db, |d| d.exec_mut(QueryBuilder::insert().element(&v).query()));
@@ -156,6 +226,20 @@ pub fn run(args: &Args) {
                         trace.emit(insert_event(&[QueryId::Id(DbId(id))], &[expected_profile(&v)], &r));
                         if r.is_ok() { stored[i].1 = Stored::P(v); }
                     }
+                    Stored::L(_) => {
+                        let v = Plain { db_id: Some(DbId(id)), label: word(&mut rng), n: rng.below(9) as i64 - 4 };
+                        let r = with_db_mut(&mut db, |d| d.exec_mut(QueryBuilder::insert().element(&v).query()));
+                        trace.emit(insert_event(&[QueryId::Id(DbId(id))], &[expected_plain(&v)], &r));
+                        if r.is_ok() { stored[i].1 = Stored::L(v); }
+                    }
+                    Stored::D(o) => {
+                        // same None pattern of the option (an update never removes a key)
+                        let v = Device { db_id: Some(DbId(id)), name: word(&mut rng), port: o.port.map(|_| rng.below(9000)) };
+                        let r = with_db_mut(&mut db, |d| d.exec_mut(QueryBuilder::insert().element(&v).query()));
+                        trace.emit(insert_event(&[QueryId::Id(DbId(id))], &[expected_device(&v)], &r));
+                        if r.is_ok() { stored[i].1 = Stored::D(v); }
+                    }
+                    Stored::F(_) => continue,
                     Stored::N(_) => continue, // no id field: cannot be addressed through the type
                 }
                 n_upd += 1;
@@ -164,14 +248,14 @@ pub fn run(args: &Args) {
                 let i = rng.below(stored.len() as u64) as usize;
                 let (id, v) = stored[i].clone();
                 let (ok, eq) = match &v {
-                    Stored::A(a) => match guarded(|| with_db_ref(&db, |d| d.exec(QueryBuilder::select().elements::<Account>().ids(id).query())).and_then(|r| TryInto::<Vec<Account>>::try_into(r))) {
-                        Ok(Ok(vs)) => (true, vs.len() == 1 && &vs[0] == a), _ => (false, false) },
-                    Stored::P(p) => match guarded(|| with_db_ref(&db, |d| d.exec(QueryBuilder::select().elements::<Profile>().ids(id).query())).and_then(|r| TryInto::<Vec<Profile>>::try_into(r))) {
-                        Ok(Ok(vs)) => (true, vs.len() == 1 && &vs[0] == p), _ => (false, false) },
-                    Stored::N(n) => match guarded(|| with_db_ref(&db, |d| d.exec(QueryBuilder::select().elements::<Note>().ids(id).query())).and_then(|r| TryInto::<Vec<Note>>::try_into(r))) {
-                        Ok(Ok(vs)) => (true, vs.len() == 1 && &vs[0] == n), _ => (false, false) },
+                    Stored::A(a) => typed_read!(Account, &db, id, a),
+                    Stored::P(p) => typed_read!(Profile, &db, id, p),
+                    Stored::N(n) => typed_read!(Note, &db, id, n),
+                    Stored::D(d) => typed_read!(Device, &db, id, d),
+                    Stored::F(f) => typed_read!(Prefs, &db, id, f),
+                    Stored::L(l) => typed_read!(Plain, &db, id, l),
                 };
-                trace.emit(json!({"ev": "TypedRead", "id": id, "ok": ok, "eq": eq, "type": match v { Stored::A(_) => "Account", Stored::P(_) => "Profile", Stored::N(_) => "Note" }}));
+                trace.emit(json!({"ev": "TypedRead", "id": id, "ok": ok, "eq": eq, "type": match v { Stored::A(_) => "Account", Stored::P(_) => "Profile", Stored::N(_) => "Note", Stored::D(_) => "Device", Stored::F(_) => "Prefs", Stored::L(_) => "Plain" }}));
                 n_read += 1;
                 continue;
             }
